@@ -25,15 +25,15 @@ def run(ctx):
         ctx, "fault_enumeration",
         "a real client command over an arbitrary upstream list, every listed endpoint being either a REAL socketace server (own recording "
         "target that announces itself with a banner, own connection-counting relay in front) or a scripted failing endpoint. "
-        "(A) lists of 1-4 upstreams over {tcp, tcp+tls, ws, udp} (every second list of 2+ entries spells its hosts alternately localhost / 127.0.0.1, each real endpoint holding a certificate valid for its own spelling only; half of the connections served by a reachable forward address end with a reset from the forward target or an aborting application, after which the upstreams must still be untouched): every failing subset for lengths 1-3 (x3 quick / x10 thorough with manners and "
+        "(A) lists of 1-4 upstreams over {tcp, tcp+tls, ws, wss = web-socket behind a TLS listener, udp}; every upstream object is made from its written address the way the command line does it (Upstreams.UnmarshalFlag), and the scheme of an address is written in every accepted spelling in turn, separately for every (kind, manner): ws as http:// | ws://, wss as https:// | wss://, udp as udp:// | udp4:// (the reference model does not know spellings); a fixed block runs every spelling x {server that can secure the session, server that cannot} x --secure off/on, alone and ahead of an upstream that meets the requirement; (every second list of 2+ entries spells its hosts alternately localhost / 127.0.0.1, each real endpoint holding a certificate valid for its own spelling only; half of the connections served by a reachable forward address end with a reset from the forward target or an aborting application, after which the upstreams must still be untouched): every failing subset for lengths 1-3 (x3 quick / x10 thorough with manners and "
         "kinds handed out round-robin) and a seeded sample of 4-entry lists; failing manners {refused, handshake answered 400 / garbage / closed, "
         "plain server while --secure, silent = accepts and never answers (also after the carrier's own TLS / websocket handshake; udp: closed port; "
-        "also only after a valid '200' to the announce request, and inside StartTLS after '200 StartTLS' + '101' - on tcp, tcp+tls, ws, udp)}; "
+        "also only after a valid '200' to the announce request, and inside StartTLS after '200 StartTLS' + '101' - on tcp, tcp+tls, ws, udp; wss: silent before and after the TLS handshake)}; "
         "forward address {none, reachable, refused} for every list; oracle: the application is served by the forward target if reachable, else by the "
-        "first good upstream in list order, else its connection is closed; with a reachable forward no upstream is contacted. Silent upstreams: "
+        "first good upstream in list order, else its connection is closed; with a reachable forward no upstream is contacted; under --secure the connection served by an upstream must run over a session that the SERVER, too, holds to be secured (server.session events of the case; only byte relays sit between client and server). Silent upstreams: "
         "violation only if the client's Connect call on the silent entry is still running after >= 95 s without the next upstream being tried and "
-        "the stall rule holds. (B) m in {2,8,32} local connections at once with a sleep inside the client's connect lock, a connection for a channel no server offers (refused), then two more: exactly one "
-        "physical connection at the relay and keyed data verified on every one. (C) loss histories on tcp / tcp+tls / ws: relay cut by FIN or RST "
+        "the stall rule holds. (B) (kinds as in (A), spellings in turn) m in {2,8,32} local connections at once with a sleep inside the client's connect lock, a connection for a channel no server offers (refused), then two more: exactly one "
+        "physical connection at the relay and keyed data verified on every one. (C) loss histories on tcp / tcp+tls / ws (written http:// and ws:// in turn): relay cut by FIN or RST "
         "while idle / in the middle of a transfer / inside an open (hook between lock release and stream open); server restart on the same "
         "address (listener gone + connections reset + new server), restart with an attempt while down, server gone for good with a second upstream "
         "listed; a BURST of m in {2,8} local connections at once after a FIN/RST cut (idle / mid-transfer; each history x3 quick / x8 thorough, hooks "
